@@ -100,10 +100,20 @@ def chunks {α : Type} (k : Nat) (xs : List α) : List (List α) := chunksAux k 
 buffered consumer (`c` = the consumer is `collect()`); items `c:a,…`; choices = item indices in completion order.
 answer: `<out sequence>;<chunks separated by |>`  -/
 
+/-- result codes (the harness maps them to blobs): `0` = empty blob, `1 + x` = the one-byte blob `[x]`,
+    `1000 + v` = decimal text of `v`, `10^12 + a` = a large blob derived from `a` -/
+def resultOf (kind a : Nat) : Nat :=
+  match kind with
+  | 0 => 0
+  | 1 => 1 + a % 256
+  | 2 => 1000 + (2 * a + 11)
+  | _ => 1000000000000 + a
+
+/-- the callback family of the harness: per item (by its argument) `None` / `Some(empty)` /
+    `Some(1 byte)` / `Some(transformed)` / `Some(large)`; `map` is total. -/
 def fOf (op : String) : Nat → Option Nat :=
-  if op == "map" then fun a => some (2 * a + 1)
-  else if op == "fmap" then fun a => if a % 3 = 0 then none else some (a + 100)
-  else fun c => if c % 4 = 0 then none else some (c + 7)
+  if op == "map" then fun a => some (resultOf (a % 4) a)
+  else fun a => if a % 5 = 0 then none else some (resultOf (a % 5 - 1) a)
 
 def parseItem (s : String) : Option Item :=
   match s.splitOn ":" with
